@@ -148,6 +148,11 @@ func runCheck(prop, tier, repo, verif string, only *Oblig) int {
 				rc = c
 			}
 		}
+		if prop == "all" && tier == "thorough" {
+			for _, l := range staleTableEntries() {
+				fmt.Println(l)
+			}
+		}
 		return rc
 	}
 	rules, ok := propertyRules[prop]
